@@ -29,6 +29,15 @@ Proof. intros p zod fl fl' w w'. unfold run_files. rewrite (order_independent p 
     exfalso. apply H. reflexivity.
   - split; [reflexivity|]. split; [|reflexivity]. intros o v E. discriminate. Qed.
 
+(* the prior content of the output directory does not show in any generated file *)
+Lemma find_app_in {A} (f : A -> bool) l l' : (exists x, In x l /\ f x = true) -> find f (l ++ l') = find f l.
+Proof. intros (x & Hx & Fx). induction l as [|a l IH]; [contradiction|]. cbn [app find]. destruct (f a) eqn:E; auto.
+  destruct Hx as [->|Hx]; [congruence|]. apply IH; auto. Qed.
+Theorem prior_state : forall {C} (prior prior' fs : dir C) k, In k (map fst fs) ->
+  read (write_all prior fs) k = read (write_all prior' fs) k.
+Proof. intros C prior prior' fs k Hk. unfold read, write_all. apply in_map_iff in Hk as (kv & E & Hin).
+  rewrite !find_app_in; auto; exists kv; split; auto; rewrite E; apply Nat.eqb_refl. Qed.
+
 (* ---------------- noise ---------------- *)
 Lemma flat_map_filter_nil {A B} (h : A -> list B) (keep : A -> bool) l :
   (forall a, keep a = false -> h a = []) -> flat_map h (filter keep l) = flat_map h l.
